@@ -1,4 +1,4 @@
-import B2Z.IcfThm
+import B2Z.Proofs.IcfThm
 namespace B2Z
 
 theorem length_flatten_eq_sum (l : List (List α)) : l.flatten.length = (l.map List.length).sum := by
